@@ -1,5 +1,6 @@
 import HeraProofs.Props.C06
 import HeraProofs.Props.C06b
+import HeraProofs.Props.C06c
 open Hera
 #print axioms C01_step
 #print axioms C05_decode_sound
@@ -7,3 +8,5 @@ open Hera
 #print axioms C06_wordStep_exec
 #print axioms C06_image_step
 #print axioms C06_image_run
+#print axioms C06_assembled_is_image
+#print axioms C06_assembled_run
